@@ -259,12 +259,25 @@ func (e *Engine) checkAcceptCompleteness() *extraResult {
 			}
 		}
 		all := strings.Join(text, "\n")
+		// the receiver's name in the contract text: the current one, or the one on the baselined tree if it was renamed
+		recvNames := []string{at.recvName}
+		if bs := baseSigFor(key, c.Obj); bs != nil && bs[0] != "" && bs[0] != at.recvName {
+			recvNames = append(recvNames, bs[0])
+		}
+		mentions := func(pre, post string) bool {
+			for _, rn := range recvNames {
+				if strings.Contains(all, pre+rn+post) {
+					return true
+				}
+			}
+			return false
+		}
 		for _, f := range at.fields {
-			if !strings.Contains(all, "visited["+at.recvName+"."+f.name) {
+			if !mentions("visited[", "."+f.name) {
 				x.ObFailed[ob] = fmt.Sprintf("child field %s.%s is not covered by a `visited[...]` postcondition", name, f.name)
 			}
 		}
-		if at.symbol && !strings.Contains(all, "symSeen["+at.recvName+".symbol]") {
+		if at.symbol && !mentions("symSeen[", ".symbol]") {
 			x.ObFailed[ob] = fmt.Sprintf("symbol field of %s is not covered by a `symSeen[...]` postcondition", name)
 		}
 	}
